@@ -233,7 +233,12 @@ impl Bitstr {
 #[verifier::external_body] fn verif_write_stdout(buf: &std::borrow::Cow<'_, [u8]>) -> Xresult { unimplemented!() }
 //@use cursor.fns ::word_emit
 // Rext: position of the first differing bit, only reported inside the MatchError (iterator chain `bits().zip().position()`)
-#[verifier::external_body] fn verif_mismatch_pos(s: &Bitstr, pat: &Bitstr) -> usize { unimplemented!() }
+// (ASSUMED std: `position` over the zip of the two bit iterators is an index below both lengths; `unwrap_or(0)` otherwise)
+#[verifier::external_body] fn verif_mismatch_pos(s: &Bitstr, pat: &Bitstr) -> (r: usize)
+    ensures r <= s.view().len(), r <= pat.view().len()
+{ unimplemented!() }
+//@include preamble/fmt_sink.rs
+//@use cursor.fns "impl fmt::Display for Xerr"::fmt#match_error
 //@use cursor.fns ::word_magic
 // `Cell::Str(Xstr::from(x))` (src/cell.rs): ASSUMED one-liner over the arcstr conversion
 impl From<String> for Cell { #[verifier::external_body] fn from(x: String) -> (r: Cell) ensures r is Str && xstr_chars(r->Str_0) == x@ { unimplemented!() } }
